@@ -20,16 +20,10 @@ Import ListNotations.
 From PyTdgl Require Import Base.Ops Model.Adapt.
 Open Scope float_scope.
 Definition fnth (l : list float) (i : nat) := nth i l 0.
-(* one history: options, then per step (threshold above which an attempt is refused, recorded d) *)
-Fixpoint hist (o : opts OpsF) (s : astate OpsF) (step : nat) (l : list (float * float)) : list (float * float) :=
-  match l with
-  | [] => []
-  | (thr, d) :: tl =>
-      match astep OpsF o s step (fun dt => PrimFloat.ltb thr dt) (fun _ => d) with
-      | None => [(-1, -1)]
-      | Some (dt, s') => (dt, tentative _ s') :: hist o s' (S step) tl
-      end
-  end.
+(* one history: options, then per step (threshold above which an attempt is refused, recorded d); Model.Adapt.ahist *)
+Definition enc (x : option (float * float)) : float * float := match x with Some p => p | None => (-1, -1) end.
+Definition hist (o : opts OpsF) (s : astate OpsF) (step : nat) (l : list (float * float)) : list (float * float) :=
+  map enc (ahist OpsF o s step (map (fun td => (fun dt => PrimFloat.ltb (fst td) dt, fun _ : float => snd td)) l)).
 """
 
 
